@@ -77,6 +77,12 @@ def strategy(date, ctx):
                 rp[i0] = 0
             if na > 1 and 1 not in rp:
                 rp[(i0 + 1) % na] = 1
+        elif draw(st.integers(0, 3)) == 0:
+            # very large identifiers on a binary grid (10+ digits, multiples of 2**32 or 2**31, or just below
+            # 2**62): arithmetic on identifiers (pair keys, products, float conversion) wraps or collides there
+            shift = draw(st.sampled_from([32, 32, 31, 40]))
+            ks = draw(st.lists(st.integers(1, 4 * na + 4), min_size=na, max_size=na, unique=True))
+            rp = [(k << shift) if shift != 40 else (2**62 - (k << 20)) for k in ks]
         elif draw(st.booleans()):  # order-reversing map
             srt = sorted(rp, reverse=True)
             ranks = np.argsort(np.argsort(a.df["p_id"].to_numpy()))
